@@ -105,16 +105,51 @@ def lv_name(n):
     return canon(n)
 
 
+def dyn_name(n, env):
+    """lvalue name with array indices evaluated (`a[i]` with i == 2 -> "a[2]"); None when an index is unknown"""
+    n = strip(n)
+    if not isinstance(n, dict):
+        return None
+    k = n.get("k")
+    if k == "ref":
+        return n["n"]
+    if k == "mem":
+        b = dyn_name(n["b"], env)
+        return None if b is None else b + ("->" if n.get("arrow") else ".") + n["f"]
+    if k == "idx":
+        b = dyn_name(n["b"], env)
+        if b is None:
+            return None
+        try:
+            i = evs(n["i"], env, None)
+        except (Unsupported, KeyError):
+            return None
+        return "%s[%s]" % (b, i)
+    if k == "un" and n.get("op") == "*":
+        b = dyn_name(n["e"], env)
+        return None if b is None else "*" + b
+    return None
+
+
+def lv_slot(n, env):
+    """the env key an lvalue reads / writes: its static canonical text when that is bound, else its dynamic name"""
+    nm = lv_name(n)
+    if nm in env or not env.get("$dyn"):
+        return nm
+    d = dyn_name(n, env)
+    return d if d is not None else nm
+
+
 def evs(n, env, events=None):
     if isinstance(n, dict) and n.get("k") == "pre" and isinstance(n.get("e"), dict):
         inner = strip_pre(n["e"])
         # a sub-expression with a side effect was already executed as its own CFG element
         if inner.get("k") == "asg":
-            return env[lv_name(inner["a"])]
+            return env[lv_slot(inner["a"], env)]
         if inner.get("k") == "un" and inner.get("op") in ("post++", "post--", "pre++", "pre--"):
-            return env[lv_name(inner["e"])]
+            return env[lv_slot(inner["e"], env)]
         if inner.get("k") == "call":
-            return 0
+            return env.get("$ret:%s" % inner.get("fn"), 0)
     n = strip_pre(n)
     if not isinstance(n, dict):
         raise Unsupported("empty")
@@ -122,7 +157,7 @@ def evs(n, env, events=None):
     if "cv" in n and k != "ref":
         return n["cv"]
     if k in ("ref", "mem", "idx") or (k == "un" and n.get("op") == "*"):
-        nm = lv_name(n)
+        nm = lv_slot(n, env)
         if nm in env:
             return env[nm]
         if "cv" in n:
@@ -131,7 +166,7 @@ def evs(n, env, events=None):
     if k == "un":
         op = n["op"]
         if op in ("post++", "post--", "pre++", "pre--"):
-            nm = lv_name(n["e"])
+            nm = lv_slot(n["e"], env)
             old = env[nm]
             env[nm] = old + (1 if "++" in op else -1)
             return old if op.startswith("post") else env[nm]
@@ -145,7 +180,7 @@ def evs(n, env, events=None):
         return evs(n["e"], env, events)
     if k == "asg":
         v = evs(n["b"], env, events)
-        nm = lv_name(n["a"])
+        nm = lv_slot(n["a"], env)
         op = n["op"]
         if op == "=":
             env[nm] = v
@@ -186,7 +221,7 @@ def evs(n, env, events=None):
                 args.append(None)
         if events is not None:
             events.append((n.get("fn"), args, n.get("l")))
-        return 0
+        return env.get("$ret:%s" % n.get("fn"), 0)
     if k == "sizeof":
         return n.get("cv", 0)
     raise Unsupported("expression kind %s" % k)
@@ -233,7 +268,7 @@ def run_region(fn, start, stop_blocks, env, events=None, max_steps=5000, call_ho
                     evs(e, env, events)
                 except Unsupported:
                     if k == "asg":
-                        env.pop(lv_name(e["a"]), None)
+                        env.pop(lv_slot(e["a"], env), None)
             # bare expressions / conditions: evaluated at the branch
         i = 0
         c = blk.cond
